@@ -1,6 +1,6 @@
 /-
 C13 — Standard-form conversion preserves the problem.  PROPERTY THEOREMS ONLY (lemmas live in
-`Rooc/Proofs/Std{Sem,Layout,Split,Norm,Bounds,Spec,Main,Shape}.lean`).
+`Rooc/Proofs/Std{Sem,Layout,Split,Norm,Bounds,Spec,Main,Shape,Extra}.lean`).
 
 The theorems are about `Standardize.standardize` (`Rooc/Standardize.lean`), the very function that is
 diffed bit-for-bit against `to_standard_form` at `Float`, here instantiated at `Ext K` (IEEE special
@@ -12,7 +12,7 @@ right-hand sides, zero coefficients anywhere.  The conversion uses no tolerance 
 the maps `image` (`p = max x 0`, `m = max (−x) 0`, slacks = residuals) and `preimage` (`x = p − m`):
 `Proofs/StdMain.lean`.
 -/
-import Rooc.Proofs.StdShape
+import Rooc.Proofs.StdExtra
 import Mathlib.Algebra.Order.Field.Rat
 import Mathlib.Data.Rat.Floor
 import Mathlib.Tactic.NormNum
@@ -57,6 +57,110 @@ theorem std_shape (lm : LinModel (Ext K)) (hW : WF lm) {sm : StdModel (Ext K)} (
     (∀ r ∈ sm.rows, r.coeffs.length = sm.vars.length) ∧ sm.objective.length = sm.vars.length ∧
     (∀ r ∈ sm.rows, 0 ≤ toK r.rhs) :=
   ⟨(shape lm hW hs).1, (shape lm hW hs).2, StdShape.rhs_nonneg lm hW hs⟩
+
+/-- **objective_both_directions.**  The recorded sign flip and offset make the standard form's objective THE objective
+of the original, at every feasible point, in both directions: `flip` is set exactly for `max`, the offset is the
+original offset (not negated), and `±(c·y) + offset` (`optimal_tableau.rs:28-33`) equals `obj lm` at the forward
+image of every feasible `x` and at the backward image of every feasible `y`. -/
+theorem objective_both_directions (lm : LinModel (Ext K)) (hW : WF lm) {sm : StdModel (Ext K)}
+    (hs : standardize lm = .ok sm) :
+    sm.flip = decide (lm.optType = .max) ∧ sm.offset = lm.offset ∧
+    (∀ x, LinFeasible lm x → stdObj sm (image lm x) = obj lm x) ∧
+    (∀ y, StdFeasible sm y → stdObj sm y = obj lm (preimage lm y)) := by
+  obtain ⟨sm', _, _, _, hstd, _, _, _, _, hoff, hflip⟩ := standardize_spec lm hW
+  rw [hs] at hstd; cases hstd
+  exact ⟨hflip, hoff, fun x hx => (StdMain.fwd lm hW hs x hx).2, fun y hy => (StdMain.bwd lm hW hs y hy).2⟩
+
+/-- **same_problem.**  The two problems have the same feasibility status and the same optimal value: a number bounds
+the original objective over the original feasible set iff it bounds the recorded objective over the standard form's
+feasible set (both directions, `≤` and `≥`, so for `min` and for `max`). -/
+theorem same_problem (lm : LinModel (Ext K)) (hW : WF lm) {sm : StdModel (Ext K)} (hs : standardize lm = .ok sm) :
+    ((∃ x, LinFeasible lm x) ↔ ∃ y, StdFeasible sm y) ∧
+    (∀ v : K, (∀ x, LinFeasible lm x → v ≤ obj lm x) ↔ ∀ y, StdFeasible sm y → v ≤ stdObj sm y) ∧
+    (∀ v : K, (∀ x, LinFeasible lm x → obj lm x ≤ v) ↔ ∀ y, StdFeasible sm y → stdObj sm y ≤ v) := by
+  refine ⟨⟨fun ⟨x, hx⟩ => ⟨_, (StdMain.fwd lm hW hs x hx).1⟩, fun ⟨y, hy⟩ => ⟨_, (StdMain.bwd lm hW hs y hy).1⟩⟩, ?_, ?_⟩
+  · intro v
+    constructor
+    · intro h y hy
+      obtain ⟨h1, h2⟩ := StdMain.bwd lm hW hs y hy
+      rw [h2]; exact h _ h1
+    · intro h x hx
+      obtain ⟨h1, h2⟩ := StdMain.fwd lm hW hs x hx
+      rw [← h2]; exact h _ h1
+  · intro v
+    constructor
+    · intro h y hy
+      obtain ⟨h1, h2⟩ := StdMain.bwd lm hW hs y hy
+      rw [h2]; exact h _ h1
+    · intro h x hx
+      obtain ⟨h1, h2⟩ := StdMain.fwd lm hW hs x hx
+      rw [← h2]; exact h _ h1
+
+/-- **bound_rows_exact.**  For EVERY continuous variable type the rows added for a variable say exactly what its
+declaration says: they hold at `x` (together with `x ≥ 0` for a variable that is kept as a non-negative column) iff
+`x` is in the declared domain.  In particular … -/
+theorem bound_rows_exact (n i : Nat) (ty : VarType (Ext K)) (hty : StdBounds.BoundsOK ty) (x : List K)
+    (hx : x.length = n) (hi : i < n) :
+    ((∀ r ∈ boundRows n i ty, StdBounds.RowHolds r x) ∧ (isFree ty = false → 0 ≤ x.getD i 0)) ↔ InDomain ty (x.getD i 0) :=
+  StdBounds.boundRows_sem n i ty hty x hx hi
+
+/-- … **bound_rows_present**: a finite lower bound of a `Real` variable gives the row `x ≥ lo` — ALSO for `lo = 0`
+(a `Real(0, hi)` variable is split into `p − m`, nothing else keeps it non-negative); a finite upper bound gives
+`x ≤ hi` for both kinds; a `NonNegativeReal` lower bound gives `x ≥ lo` exactly when `lo ≠ 0`; free and plain
+non-negative variables get no row. -/
+theorem bound_rows_present (n i : Nat) :
+    (∀ (l : K) (hi : Ext K), ({ name := "", coeffs := unitRow n i, cmp := .ge, rhs := .fin l } : LinRow (Ext K)) ∈
+        boundRows n i (.real (.fin l) hi)) ∧
+    (∀ (lo : Ext K) (u : K), ({ name := "", coeffs := unitRow n i, cmp := .le, rhs := .fin u } : LinRow (Ext K)) ∈
+        boundRows n i (.real lo (.fin u))) ∧
+    (∀ (l : K) (hi : Ext K), l ≠ 0 → ({ name := "", coeffs := unitRow n i, cmp := .ge, rhs := .fin l } : LinRow (Ext K)) ∈
+        boundRows n i (.nnreal (.fin l) hi)) ∧
+    (∀ (lo : Ext K) (u : K), ({ name := "", coeffs := unitRow n i, cmp := .le, rhs := .fin u } : LinRow (Ext K)) ∈
+        boundRows n i (.nnreal lo (.fin u))) ∧
+    boundRows n i (VarType.real (Ext.ninf : Ext K) Ext.pinf) = [] ∧
+    boundRows n i (VarType.nnreal (Ext.fin (0:K)) Ext.pinf) = [] :=
+  ⟨StdExtra.boundRows_real_lower n i, StdExtra.boundRows_real_upper n i, fun l hi hl => StdExtra.boundRows_nnreal_lower n i l hl hi,
+   StdExtra.boundRows_nnreal_upper n i, StdExtra.boundRows_free n i, StdExtra.boundRows_nonneg n i⟩
+
+/-- **remove_many_positional.**  `utils::remove_many` removes exactly the listed POSITIONS and keeps everything else in
+order … -/
+theorem remove_many_positional {β : Type} (l : List β) (idx : List Nat) :
+    removeMany l idx = (l.zipIdx.filter (fun p => !(idx.contains p.2))).map (·.1) :=
+  StdExtra.removeMany_spec l idx
+
+/-- … and the whole free-variable bookkeeping of `to_standard_form` ("append `c, −c` for every free variable, then
+remove the free columns by index") turns a vector into `kept columns ++ (c, −c pairs of the free columns)`, whatever
+the positions of the free variables are (adjacent, separated by one or by many kept columns, first, last). -/
+theorem free_split_positional {α : Type} [Arith α] (fl : List Bool) (r : List α) (h : r.length = fl.length) :
+    (splitAll (StdLayout.flagsIdx 0 fl) r).map (fun c => removeMany c (StdLayout.flagsIdx 0 fl)) =
+      some (StdLayout.keep fl r ++ StdLayout.pairs StdLayout.pm fl r) :=
+  StdLayout.split_closed fl r h
+
+/-- **keeps_every_row.**  The standard form has one row per row of the model plus one per bound row:
+`StandardLinearModel::new` and `normalize_constraint` drop nothing — whatever the coefficients of the row are. -/
+theorem keeps_every_row (lm : LinModel (Ext K)) (hW : WF lm) {sm : StdModel (Ext K)} (hs : standardize lm = .ok sm) :
+    sm.rows.length = lm.rows.length + (StdSpec.boundsOf lm.vars.length 0 (StdSpec.tys lm)).length :=
+  StdExtra.rows_count lm hW hs
+
+/-- **contradiction_row_kept.**  In particular a row in which no variable appears and whose comparison is false
+(`0 = b` with `b ≠ 0`, `0 ≤ b` with `b < 0`, …) makes the standard form infeasible, as it makes the original. -/
+theorem contradiction_row_kept (lm : LinModel (Ext K)) (hW : WF lm) {sm : StdModel (Ext K)}
+    (hs : standardize lm = .ok sm) (r : LinRow (Ext K)) (hr : r ∈ lm.rows) (hz : ∀ c ∈ r.coeffs, toK c = 0)
+    (hfalse : ¬ cmpHolds r.cmp 0 (toK r.rhs)) : ¬ ∃ y, StdFeasible sm y := by
+  rintro ⟨y, hy⟩
+  obtain ⟨hF, -⟩ := StdMain.bwd lm hW hs y hy
+  have := hF.rows r hr
+  have hval : ∀ (cs : List (Ext K)) (x : List K), (∀ c ∈ cs, toK c = 0) → rowVal cs x = 0 := by
+    intro cs
+    induction cs with
+    | nil => intro x _; simp [rowVal]
+    | cons c cs ih =>
+      intro x h
+      cases x with
+      | nil => simp [rowVal]
+      | cons v vs => simp [rowVal, h c (by simp), ih vs (fun c' hc' => h c' (List.mem_cons_of_mem _ hc'))]
+  rw [hval r.coeffs _ hz] at this
+  exact hfalse this
 
 /-! ### Non-vacuity and the regression example (over `ℚ`) -/
 section examples
@@ -107,6 +211,35 @@ example : (eqNew [Ext.fin (2 : ℚ)] (Ext.fin (-1/200000))).rhs = Ext.fin (1/200
   constructor
   · simp [Arith.neg, Ext.neg, ExactField.neg]; norm_num
   · simp [Arith.mul, Arith.ofInt, Ext.mul, ExactField.mul, ExactField.ofInt]
+
+/-- `same_problem`, `objective_both_directions` and `keeps_every_row` apply to `lm0` (one row, one bound row for `x ≤ 3`). -/
+example : ∃ sm, standardize lm0 = .ok sm ∧ sm.flip = true ∧ sm.rows.length = 2 ∧ ∃ y, StdFeasible sm y := by
+  obtain ⟨sm, hs⟩ := std_total lm0 lm0_wf
+  obtain ⟨hfl, -, -, -⟩ := objective_both_directions lm0 lm0_wf hs
+  refine ⟨sm, hs, by rw [hfl]; rfl, ?_, (same_problem lm0 lm0_wf hs).1.1 ⟨_, lm0_feasible⟩⟩
+  rw [keeps_every_row lm0 lm0_wf hs]
+  simp [lm0, StdSpec.tys, StdSpec.tyOf, StdSpec.boundsOf, lookup, boundRows, Arith.eq, Arith.ne, Ext.eq, Arith.zero,
+    Arith.ofInt, Arith.posInf, Arith.negInf]
+
+/-- `x − x = 5` in spirit: `max x − y s.t. 0·x + 0·y = 5` — `contradiction_row_kept` applies. -/
+def lmC : LinModel (Ext ℚ) := { lm0 with rows := [{ name := "", coeffs := [.fin 0, .fin 0], cmp := .eq, rhs := .fin 5 }] }
+
+example : ∃ sm, standardize lmC = .ok sm ∧ ¬ ∃ y, StdFeasible sm y := by
+  have hW : WF lmC := by
+    refine ⟨rfl, ?_, ?_, ?_, ?_, ?_, ?_, ?_, ?_, ?_, Or.inr rfl⟩
+    · simp [lmC, lm0, isFin]
+    · simp [lmC, lm0, isFin]
+    · simp [lmC, lm0]
+    · simp [lmC, isFin]
+    · simp [lmC]
+    · simp [lmC, lm0, lookup]
+    · simp [lmC, lm0, isContinuous]
+    · simp [lmC, lm0, isFin]
+    · simp [lmC, lm0, isFin]
+  obtain ⟨sm, hs⟩ := std_total lmC hW
+  refine ⟨sm, hs, contradiction_row_kept lmC hW hs
+    { name := "", coeffs := [.fin 0, .fin 0], cmp := .eq, rhs := .fin 5 } (by simp [lmC]) (by simp [toK]) ?_⟩
+  simp [cmpHolds, toK]
 
 end examples
 end Rooc.Props.C13
